@@ -45,7 +45,23 @@ func backwardSlice(fn *ssa.Function, seeds []ssa.Value, seedInstrs []ssa.Instruc
 		return false
 	}
 	var work []ssa.Value
+	// contents[v]: what is written through pointer v counts as part of the slice. A pointer that is in the slice only
+	// as the base of a field address (p in "p.f") contributes its identity, not the other fields written through it.
+	contents := map[ssa.Value]bool{}
 	addV := func(v ssa.Value) {
+		if v == nil {
+			return
+		}
+		if !s.Values[v] {
+			s.Values[v] = true
+			contents[v] = true
+			work = append(work, v)
+		} else if !contents[v] {
+			contents[v] = true
+			work = append(work, v)
+		}
+	}
+	addBase := func(v ssa.Value) {
 		if v != nil && !s.Values[v] {
 			s.Values[v] = true
 			work = append(work, v)
@@ -128,7 +144,7 @@ func backwardSlice(fn *ssa.Function, seeds []ssa.Value, seedInstrs []ssa.Instruc
 		v := work[len(work)-1]
 		work = work[:len(work)-1]
 		// contents written through a pointer that is in the slice (p.f = x) belong to what p denotes
-		if refs := v.Referrers(); refs != nil {
+		if refs := v.Referrers(); refs != nil && contents[v] {
 			for _, ref := range *refs {
 				if fa, ok := ref.(*ssa.FieldAddr); ok && fa.X == v && inU(fa.Parent()) {
 					for _, r2 := range *fa.Referrers() {
@@ -147,7 +163,11 @@ func backwardSlice(fn *ssa.Function, seeds []ssa.Value, seedInstrs []ssa.Instruc
 				}
 				for i, q := range p.Parent().Params {
 					if q == p && i < len(site.Call.Args) {
-						addV(site.Call.Args[i])
+						if contents[v] {
+							addV(site.Call.Args[i])
+						} else {
+							addBase(site.Call.Args[i]) // only the identity of the object matters
+						}
 						addBlock(site.Block())
 					}
 				}
@@ -166,9 +186,16 @@ func backwardSlice(fn *ssa.Function, seeds []ssa.Value, seedInstrs []ssa.Instruc
 			// result of an inlined call: what the callee returns (and, below, the arguments as before)
 			for _, ret := range Returns(InlinedCallee(c)) {
 				for _, rv := range ReturnValues(ret) {
-					addV(rv)
+					if contents[v] {
+						addV(rv)
+					} else {
+						addBase(rv)
+					}
 				}
 				addBlock(ret.Block())
+			}
+			if !contents[v] {
+				continue // identity only: the arguments of the call do not matter either
 			}
 		}
 		switch x := v.(type) {
@@ -193,10 +220,17 @@ func backwardSlice(fn *ssa.Function, seeds []ssa.Value, seedInstrs []ssa.Instruc
 						}
 					}
 				case *ssa.FieldAddr:
-					k := FieldKey(a)
-					for _, st := range StoresToField(fn, k) {
-						addV(st.Val)
-						addBlock(st.Block())
+					if vals := localFieldStores(a.X, a.Field, 0); len(vals) > 0 {
+						// field of a local struct: exactly the values stored into that field of that variable
+						for _, sv := range vals {
+							addV(sv)
+						}
+					} else {
+						k := FieldKey(a)
+						for _, st := range StoresToField(fn, k) {
+							addV(st.Val)
+							addBlock(st.Block())
+						}
 					}
 				}
 			}
@@ -205,6 +239,9 @@ func backwardSlice(fn *ssa.Function, seeds []ssa.Value, seedInstrs []ssa.Instruc
 				if st, ok := ref.(*ssa.Store); ok && st.Addr == x {
 					addV(st.Val)
 					addBlock(st.Block())
+				}
+				if !contents[v] {
+					continue // only the identity of the variable is of interest
 				}
 				// element stores into a local array/struct
 				if fa, ok := ref.(*ssa.FieldAddr); ok {
@@ -221,6 +258,20 @@ func backwardSlice(fn *ssa.Function, seeds []ssa.Value, seedInstrs []ssa.Instruc
 						}
 					}
 				}
+			}
+		}
+		if fa, isFA := v.(*ssa.FieldAddr); isFA {
+			addBase(fa.X)
+			continue
+		}
+		if fv, isF := v.(*ssa.Field); isF {
+			// field of a struct value: the stores into that field of the local it was loaded from, else the whole value
+			if vals := localFieldStores(fv.X, fv.Field, 0); len(vals) > 0 {
+				for _, sv := range vals {
+					addV(sv)
+				}
+				addBase(fv.X)
+				continue
 			}
 		}
 		for _, op := range in.Operands(nil) {
